@@ -53,7 +53,11 @@ func VerifC12Cache() {
 		switch verifChoose(fmt.Sprintf("ev%d", st), 3) {
 		case 0: // a response arrives
 			m, u, pp, k := key(st)
-			size := []int{40, 100, 200}[verifChoose(fmt.Sprintf("size%d", st), 3)]
+			pool := []int{40, 100, 200}
+			if verifParam("sizes", 0) == 1 {
+				pool = []int{10, 110, 200} // one small + one big fit, two big ones exceed the limit by a hair
+			}
+			size := pool[verifChoose(fmt.Sprintf("size%d", st), 3)]
 			body := strings.Repeat("x", size-len(fmt.Sprint(st))) + fmt.Sprint(st)
 			status := 200 + st
 			resp := lunarMessages.OnResponse{ID: fmt.Sprintf("t%d", st), Method: m, URL: u, Status: status, Body: body, Headers: map[string]string{}}
